@@ -127,6 +127,10 @@ def layouts17(src):
             ind = len(l) - len(l.lstrip(" \t"))
             tb.append(l[:ind] + l[ind:].replace(" ", "\t"))
     out.append(("tabs-between-tokens", "\n".join(tb).encode("latin-1")))
+    if "\\\n" in s:
+        # blanks between the backslash of a continuation and the line end
+        out.append(("blank-after-backslash", "\n".join((l + "\t") if l.endswith("\\") else l for l in lines).encode("latin-1")))
+        out.append(("space-after-backslash", "\n".join((l + "  ") if l.endswith("\\") else l for l in lines).encode("latin-1")))
     seen, res = set(), []
     for n, t in out:
         if t not in seen:
@@ -206,7 +210,7 @@ def check(ctx):
     for name, lang, src in progs:
         lays = layouts17(src)
         if quick:
-            lays = [l for l in lays if l[0] in ("orig", "trailing", "ws-blank-lines", "space-tab-indent", "tabs-between-tokens")]
+            lays = [l for l in lays if l[0] in ("orig", "trailing", "ws-blank-lines", "space-tab-indent", "tabs-between-tokens", "blank-after-backslash", "space-after-backslash")]
             if not name.startswith(("c-", "cpp-", "pp-", "stmts")):
                 lays = lays[:2]
         if name.startswith("d2-"):
@@ -215,7 +219,7 @@ def check(ctx):
                 jobs.append((name, lang, ln, ls, sub, "tabs"))
             continue
         if not quick:
-            lays = [l for l in lays if l[0] in ("orig", "trailing", "ws-blank-lines", "space-tab-indent", "tabs-between-tokens")]
+            lays = [l for l in lays if l[0] in ("orig", "trailing", "ws-blank-lines", "space-tab-indent", "tabs-between-tokens", "blank-after-backslash", "space-after-backslash")]
         for ln, ls in lays:
             for i in range(0, len(tabs), 60):
                 jobs.append((name, lang, ln, ls, tabs[i:i + 60], "tabs"))
